@@ -202,6 +202,7 @@ class World:
         self.conn_events = []  # (t, "made"/"lost", arg)
         self.conn_callbacks = conn_callbacks
         self.conn_hook = None  # fn(kind, exc) invoked inside the connection-lost callback
+        self.made_hook = None  # fn(gateway) invoked inside the connection-made callback
         self.event_hook = None  # fn(msg) invoked inside the event callback
         self.logic_hook = None  # fn(line) invoked when the processing of a line begins (in that thread)
         self.logic_log = []  # (line, begin_wseq)
@@ -259,6 +260,8 @@ class World:
     def _on_conn_made(self, gateway):
         self.conn_events.append((self.sim.now, "made", gateway, None))
         self.sim.ev("conn_made")
+        if self.made_hook is not None:
+            self.made_hook(gateway)  # what the application does in its connection-made callback (runs in the calling thread)
 
     def _on_conn_lost(self, gateway, exc):
         self.conn_events.append((self.sim.now, "lost", gateway, exc))
